@@ -1115,6 +1115,22 @@ def main(run):
     for i in range(run.n(20, 300)):
         steps = [rng.choice(pool_steps) if rng.random() < 0.8 else rng.choice(iso_steps + damaged_iso) for _ in range(rng.randint(6, 20))]
         hist_cases.append({"part": "history", "steps": steps, "id": i})
+    # a document that fails deep inside (unfinished formula conversion, markup nested beyond the recursion limit, damaged members that raise),
+    # then good documents of the same and of other formats: whatever the failing one left half-done must not reach the later results
+    def fails_deep(st):
+        src_ = st[1]["src"]
+        return iso.is_iso(src_) and ((src_[1] == "docx" and str(src_[2]).startswith("ommlfail")) or (src_[1] in ("deep-html", "deep-mhtml") and src_[2] != "d300"))
+    failing = [st for st in iso_steps if fails_deep(st)] + damaged_iso
+    formula_good = [st for st in iso_steps if iso.is_iso(st[1]["src"]) and str(st[1]["src"][2]).startswith("ommlgood")] + [["pptx", {"src": ["fx", "modern_ms/pptx_formula_image.pptx"], "op": None}, 1]]
+    good = [st for st in iso_steps if not fails_deep(st) and not risky(st)]
+    for i in range(run.n(8, 40)):
+        steps = []
+        for _ in range(rng.randint(3, 6)):
+            f_ = rng.choice(failing)
+            steps.append(f_)
+            same = [st for st in good if st[0] == f_[0]]
+            steps += [rng.choice(formula_good if f_[0] in ("docx", "pptx") else (same or good))] + [rng.choice(good) for _ in range(rng.randint(0, 2))]
+        hist_cases.append({"part": "history", "steps": steps, "id": f"fail{i}", "group": "failing-document-then-good-ones/unfinished-state"})
     # every damaged archive of the pool at least once (a failure half-way through unpacking must clean up after itself, whatever the random
     # histories above happened to draw)
     dmg = [st for st in pool_steps if st[0] == "zip" and st[1].get("op")]
